@@ -693,10 +693,11 @@ def _import_job(job):
     ref_text = job[3] if len(job) > 3 and job[3] else text      # the same script in standard spelling (pySMT extensions)
     reserialise = job[4] if len(job) > 4 else True
     interactive = bool(job[5]) if len(job) > 5 else False
+    parser_cls = job[6] if len(job) > 6 and job[6] else PARSER
     out = {"name": name, "expect": expect, "kind": None, "detail": "", "last": None}
 
     def call(w, it, f):
-        ps = w.new_walker(PARSER, w.env, interactive=True) if interactive else w.new_walker(PARSER, w.env)
+        ps = w.new_walker(parser_cls, w.env, interactive=True) if interactive else w.new_walker(parser_cls, w.env)
         script = it.call(it.getattr(ps, "get_script"), [it.call(ExtRef("io.StringIO"), [text])])
         cmds = _cmd_list(w, it, script)
         try:
@@ -885,6 +886,17 @@ def import_results(repo, tier="quick"):
         pick += [(n, t) for n, t in corp[::9] if (n, t) not in pick]
         jobs += [(n + " [interactive reader]", t, "may-reject" if n in MAY_REJECT else "accept", None, False, True)
                  for n, t in pick if n not in KNOWN_MISREAD]
+        # the dialect reader (SmtLibZ3Parser): each extension is read as the standard term it abbreviates
+        Z3P = "pysmt.smtlib.parser.parser.SmtLibZ3Parser"
+        BVD = "(declare-fun u () (_ BitVec 4))(declare-fun v () (_ BitVec 4))(declare-fun x () Int)"
+        for nm_, ext, std in [("ext_rotate_left", "(= (ext_rotate_left u #x1) v)", "(= ((_ rotate_left 1) u) v)"),
+                              ("ext_rotate_left-3", "(= (ext_rotate_left u #b0011) v)", "(= ((_ rotate_left 3) u) v)"),
+                              ("ext_rotate_right", "(= (ext_rotate_right u #x1) v)", "(= ((_ rotate_right 1) u) v)"),
+                              ("ext_rotate_right-2", "(= (ext_rotate_right (bvadd u v) #x2) u)", "(= ((_ rotate_right 2) (bvadd u v)) u)"),
+                              ("both-rotations", "(= (ext_rotate_left u #x1) (ext_rotate_right v #x1))", "(= ((_ rotate_left 1) u) ((_ rotate_right 1) v))"),
+                              ("bv2int", "(= (bv2int u) x)", "(= (bv2nat u) x)"), ("ubv_to_int", "(< (ubv_to_int (bvmul u v)) x)", "(< (bv2nat (bvmul u v)) x)"),
+                              ("standard-rotations", "(= ((_ rotate_left 1) u) ((_ rotate_right 3) v))", "(= ((_ rotate_left 1) u) ((_ rotate_right 3) v))")]:
+            jobs.append(("z3-dialect-" + nm_ + " [SmtLibZ3Parser]", BVD + "(assert %s)" % ext, "accept", BVD + "(assert %s)" % std, False, False, Z3P))
         first = _import_job(jobs[0])
         _IMPORT[key] = [first] + parallel_map(_import_job, jobs[1:])
     return _IMPORT[key]
